@@ -160,6 +160,23 @@ def build(chk):
     recs += term_everywhere(chk, 11, positions, 1 << 30, 1 << 30)
     recs += term_everywhere(chk, 12, positions[::2], 1, 1 << 30)
     recs += term_everywhere(chk, 13, positions[::2], 1 << 30, 2)
+    # termination while the peer refuses / acknowledges transfers that are queued, in flight or awaiting their
+    # final ack: XFER_REFUSE and XFER_ACK are legal peer messages; both sides must still end closed
+    import random
+    import check_C17
+    for victim in ('A', 'B'):
+        for fidx in range(200):
+            if chk.quick() and fidx % 2 != 0:
+                continue
+            res = check_C17.adversarial_run(chk, random.Random(9000 + fidx), phase='terminating', forced=fidx,
+                                            victim=victim, inflight=(10, 3, 2))
+            if not res[2]:
+                break
+            if res[2][0][0] not in (2, 3):
+                continue
+            res[0].meta.update(dict(quiescent=True, no_model=(fidx % 3 != 0)))
+            res[0].kind = 'term-with-xfer-msg'
+            recs.append(res[0])
     nruns = 10 if chk.quick() else 300
     for idx in range(nruns):
         runner = TS.gen_coop(chk.rng, nops=chk.rng.choice([40, 90]), with_term=True)
